@@ -537,9 +537,6 @@ fn summary(op: Op, a: &Opd, b: &Opd, o: &Outcome, panic_msg: &Option<String>) ->
 
 /// Plain re-execution of one recorded case.
 fn confirm(v: &Value) -> Result<(), String> {
-    if control_word_ok(control_word()) == false {
-        return Err("x87 control word is not 64-bit precision / round-to-nearest".to_string());
-    }
     let op = v["op"].as_str().and_then(Op::from_name).ok_or_else(|| format!("replay: unknown op in {v}"))?;
     let a = Opd::from_json(&v["a"])?;
     let b = if op.binary() { Opd::from_json(&v["b"])? } else { a };
@@ -547,6 +544,17 @@ fn confirm(v: &Value) -> Result<(), String> {
     // register-stack slots (or any other per-thread state) only shows after some calls on one thread.
     // A fresh thread starts from a clean FPU state, so the two confirming runs see the same thing.
     std::thread::spawn(move || {
+        // a new thread inherits the x87 control word of the thread that spawned it, and that one has
+        // already run the library's f80_init(): start from the architectural default (fninit: 64-bit
+        // precision, round to nearest, empty register stack), as a program's main thread does
+        unsafe {
+            core::arch::asm!("fninit", options(nomem, nostack));
+        }
+        if !control_word_ok(control_word()) {
+            eprintln!("replay: x87 control word after fninit is not 64-bit precision / round-to-nearest");
+            std::process::exit(2);
+        }
+        rlib_f80::f80_init();
         for rep in 0..16 {
             let (o, pm) = check_caught(op, &a, &b);
             if let Verdict::Fail = o.verdict {
@@ -969,6 +977,13 @@ pub fn main() {
     if rayon::broadcast(|_| control_word()).iter().any(|&w| !control_word_ok(w)) {
         run.machinery_failure("a worker thread starts with an x87 control word other than 64-bit precision / round-to-nearest");
     }
+
+    // The crate tells every user to call f80_init() at the start of main ("it enables f80 on windows");
+    // the checks therefore run after that call, on every thread.  The environment was verified above, so
+    // whatever the control word is from here on is the library's doing and is judged through the results.
+    rlib_f80::f80_init();
+    rayon::broadcast(|_| rlib_f80::f80_init());
+    run.cov("x87_control_word_after_f80_init", format!("0x{:04x}", control_word()));
 
     // ---- level 1: B x B
     let b: Vec<u64> = boundary_set();
